@@ -590,6 +590,56 @@ def rule_r12(ctx):
         raise AnalysisBroken("no unsigned cursor is stepped back in core/url.c any more")
 
 
+# ---------------------------------------------------------------------------
+# R13: the number a conversion returns is range-checked at the width it was returned in
+
+
+def rule_r13(ctx):
+    import re
+    r = ctx.rule("C19.R13", "T11", "a converted number is range-checked at full width: the result of strtol / strtoul / strtoll / "
+                 "strtoull is kept in a local of the function's own result type (long / unsigned long / long long / a 64-bit "
+                 "type) with no narrowing cast between the call and the store -- narrowed to int first, 4294967376 is 80 and "
+                 "passes the test `<= 0xffff` that is still there: http://host:4294967376/ is accepted as port 80", floor=1)
+    prog = ctx.prog
+    WIDE = {"strtol": r"^(const )?(long|long int|int64_t|ssize_t|intptr_t|long long)$",
+            "strtoul": r"^(const )?(unsigned long|unsigned long int|uint64_t|size_t|uintptr_t|unsigned long long)$",
+            "strtoll": r"^(const )?(long long|long long int|int64_t)$",
+            "strtoull": r"^(const )?(unsigned long long|unsigned long long int|uint64_t|size_t)$"}
+    n = 0
+    for f in prog.functions:
+        if f.cfg_failed or f.file.endswith("_test.c"):
+            continue
+        for s_ in f.sites():
+            if f.blocks[s_.b].elems[s_.i] is not s_.node:
+                continue
+            for m in walk(f.expand(s_.node)):
+                cands = []
+                if m.get("k") == "asg" and m.get("op") == "=" and m["lhs"].get("k") == "var":
+                    cands = [(m["lhs"]["n"], m["rhs"], (f.locals().get(m["lhs"]["n"]) or {}).get("t") or "")]
+                elif m.get("k") == "decls":
+                    cands = [(d["n"], d["init"], d.get("t") or "") for d in m["d"] if d.get("init") is not None]
+                for name, rhs, ty in cands:
+                    casts = []
+                    rr = f.expand(rhs) if rhs is not None else None
+                    while rr is not None and rr.get("k") == "cast":
+                        casts.append(rr.get("t") or "")
+                        rr = f.expand(rr["e"])
+                    if rr is None or rr.get("k") != "call" or rr.get("fn") not in WIDE:
+                        continue
+                    n += 1
+                    pat = re.compile(WIDE[rr["fn"]])
+                    narrow = [c for c in casts if c and not pat.match(c.strip())]
+                    if not pat.match(ty.strip()) or narrow:
+                        ctx.fail(r, f, "result of %s narrowed to %s before it is checked" % (rr["fn"], narrow[0] if narrow else ty), s_.line,
+                                 "%s keeps the result of %s in %s (%s%s) at line %s: the range test that follows sees only the "
+                                 "low bits, so a number far out of range is accepted as the small number it wraps to"
+                                 % (f.name, rr["fn"], name, ty, (", cast to " + narrow[0]) if narrow else "", s_.line))
+                    else:
+                        r.ob(f, "%s = %s(...) kept as %s" % (name, rr["fn"], ty))
+    if n < 1:
+        raise AnalysisBroken("no strto* conversion kept in a local found")
+
+
 def run(ctx):
     ctx.guard(rule_r1)
     ctx.guard(rule_r2)
@@ -602,3 +652,4 @@ def run(ctx):
     ctx.guard(rule_r10)
     ctx.guard(rule_r11)
     ctx.guard(rule_r12)
+    ctx.guard(rule_r13)
